@@ -11,6 +11,21 @@ use serde_json::{json, Value};
 use std::collections::{BTreeMap, BTreeSet};
 use std::time::Instant;
 
+thread_local! {
+    /// faults that are injected as operations (damaged or mis-addressed documents, ...) are noted
+    /// here by the profile while it draws the history; never read back by the generation
+    static OP_FAULTS: std::cell::RefCell<BTreeMap<&'static str, u64>> = const { std::cell::RefCell::new(BTreeMap::new()) };
+}
+
+/// count one operation-level fault of kind `tag` for the run that is being generated
+pub fn note_op_fault(tag: &'static str) {
+    OP_FAULTS.with(|m| *m.borrow_mut().entry(tag).or_insert(0) += 1);
+}
+
+fn take_op_faults() -> BTreeMap<&'static str, u64> {
+    OP_FAULTS.with(|m| std::mem::take(&mut *m.borrow_mut()))
+}
+
 pub struct RunOut {
     pub plan: Plan,
     pub armed: Vec<Finding>,
@@ -52,6 +67,7 @@ pub fn run_one(p: &dyn Profile, reg: &Reg, seed: u64, run: u64) -> RunOut {
     // the chain's address format is one more thing that varies per run
     let prefix = if rng.chance(1, 4) { *rng.pick(&crate::world::PREFIXES) } else { "cosmwasm" };
     crate::world::set_prefix(prefix);
+    let _ = take_op_faults();
     let wp = p.gen_world(&mut rng, reg);
     let mut plan = base_plan(p, seed, run, &wp);
     let mut executions = 1;
@@ -69,6 +85,37 @@ pub fn run_one(p: &dyn Profile, reg: &Reg, seed: u64, run: u64) -> RunOut {
     executions += 1;
     let mut out = evaluate(p, reg, plan, &rec);
     out.executions = executions;
+    // operation-level faults of this run: noted by the profile, plus what the plan itself shows
+    for (k, v) in take_op_faults() {
+        *out.fired.entry(k).or_insert(0) += v;
+    }
+    for op in out.plan.ops.iter() {
+        let (tag, doc): (Option<&'static str>, Option<&crate::plan::Doc>) = match op {
+            Op::Block { dh: 0, .. } => (Some("op_clock_moved_time_only"), None),
+            Op::Block { .. } => (Some("op_clock_moved"), None),
+            Op::Poke { .. } => (Some("op_storage_poked"), None),
+            Op::Migrate { msg, .. } => (Some("op_code_replaced"), Some(msg)),
+            Op::Exec { msg, .. } | Op::Sudo { msg, .. } | Op::Instantiate { msg, .. } | Op::Query { msg, .. } => (None, Some(msg)),
+            Op::Twin(_) => (None, None),
+        };
+        let twin_text = match op {
+            Op::Twin(t) => Some(t.args.to_string()),
+            _ => None,
+        };
+        if let Some(t) = tag {
+            *out.fired.entry(t).or_insert(0) += 1;
+        }
+        if let Some(text) = doc.map(|d| d.lossy()).or(twin_text) {
+            let fails = text.matches("\"fail\":{").count() as u64;
+            let panics = text.matches("\"panic\":{").count() as u64;
+            if fails > 0 {
+                *out.fired.entry("op_scripted_failure").or_insert(0) += fails;
+            }
+            if panics > 0 {
+                *out.fired.entry("op_scripted_panic").or_insert(0) += panics;
+            }
+        }
+    }
     out
 }
 
